@@ -6,6 +6,7 @@ mod listmap;
 mod num;
 mod reactive;
 mod route;
+mod ssr;
 mod util;
 
 use util::Args;
@@ -53,6 +54,7 @@ fn main() {
         "isdyn" => isdyn::run(&args),
         "listmap" => listmap::run(&args),
         "reactive" => reactive::run(&args),
+        "ssr" => ssr::run(&args),
         e => {
             eprintln!("unknown engine {e}");
             std::process::exit(2)
